@@ -120,6 +120,8 @@ def a_strategy(stratum, tier):
             seed=gens.st_seed(),
             amp=st.floats(0.1, 2.0).map(lambda x: float("%.4g" % x)),
             contour=st.sampled_from(configs.CONTOURS),
+            # a real (diffusive) symbol may be handed over as a real-dtype array (e.g. -nu*k**2)
+            real_dtype=st.booleans(),
         )
     )
 
@@ -152,10 +154,15 @@ def a_check(case):
         nf = ex.nonlin_fun.ConvectionNonlinearFun(1, N, derivative_operator=ex.spectral.build_derivative_operator(1, 2 * math.pi, N), scale=a if a != 0 else 1.0)
     radius, M = case["contour"]
     cls = [ex.etdrk.ETDRK0, ex.etdrk.ETDRK1, ex.etdrk.ETDRK2, ex.etdrk.ETDRK3, ex.etdrk.ETDRK4][p]
+    lam_arg = lam
+    if case.get("real_dtype") and not np.any(lam.imag != 0):
+        lam_arg = np.ascontiguousarray(lam.real)
+        res.tag("real_dtype_operator")
+        key = key + ":real_dtype"
     if p == 0:
-        ok, integ = res.lib("construct", cls, dt, jnp.asarray(lam), key=key)
+        ok, integ = res.lib("construct", cls, dt, jnp.asarray(lam_arg), key=key)
     else:
-        ok, integ = res.lib("construct", cls, dt, jnp.asarray(lam), nf, num_circle_points=M, circle_radius=radius, key=key)
+        ok, integ = res.lib("construct", cls, dt, jnp.asarray(lam_arg), nf, num_circle_points=M, circle_radius=radius, key=key)
     if not ok:
         return res
     rng = np.random.default_rng(case["seed"])
